@@ -367,7 +367,9 @@ fn sender(spec: &CaseSpec, out: &Outcome, a: &mut Analysis) {
     a.completed = final_acked.is_some() && out.end == EndHow::Joined;
     // a sender that stops although nothing failed (no ERROR, no run of 6 failed receives at the end) and the final
     // block was never sent has dropped the end of the transfer
-    if out.end == EndHow::Joined && final_acked.is_none() && got_error.is_none() && max_sent < n && !handshake_failed {
+    // a failed `send` (injected local error) is a legitimate reason to abandon the transfer
+    let send_failed = spec.rules.iter().any(|r| matches!(r, crate::sim::Rule::SendFail { .. }));
+    if out.end == EndHow::Joined && final_acked.is_none() && got_error.is_none() && max_sent < n && !handshake_failed && !send_failed {
         // failed receive attempts since the last progress (stale ACKs in between do not reset the worker's count)
         let tail_failures = consecutive_fail as usize;
         a.hit("ENDED_EARLY");
